@@ -185,8 +185,8 @@ pub fn smart_lengths(lane: usize, extra: &[usize]) -> Vec<usize> {
 }
 
 /// Lengths well beyond every register geometry (blocked / chunked code paths switch on thresholds such as 1024, 2048, 4096):
-/// around the powers of two and a few primes.
-pub const LARGE_LENGTHS: [usize; 12] = [1023, 1025, 2047, 2048, 2049, 3001, 4095, 4097, 6145, 8191, 8193, 10007];
+/// the usual embedding sizes (128 … 4096, 1536 and 3072 among them), the neighbours of the powers of two, a few primes.
+pub const LARGE_LENGTHS: [usize; 19] = [128, 256, 384, 512, 768, 1023, 1024, 1025, 1536, 2047, 2048, 2049, 3072, 4095, 4096, 4097, 6145, 8193, 10007];
 
 pub fn len_bucket(n: usize) -> &'static str {
     match n {
